@@ -703,19 +703,24 @@ def c02(ck):
     ck.add_validation(v, traces=len(eps))
     rej = ck.expect_canary(v["rejects"], can_ret_ids)
     by_case = {}
+    cur_case = (None, 0)
     for e in events:
+        if e.get("ep_start") and e.get("case") is not None:
+            cur_case = (e["case"], e.get("perm", 0))
         if e.get("case") is not None and e["id"] in by_id:
-            by_case.setdefault(e["case"], []).append(e)
+            by_case.setdefault(cur_case if e["case"] == cur_case[0] else (e["case"], 0), []).append(e)
+            e["_ep"] = cur_case if e["case"] == cur_case[0] else (e["case"], 0)
     for r in rej:
         e = by_id.get(r["id"])
         if e is None:
             continue
-        if e["event"] == "Tampered":
-            ck.violation(f"Tampered:{e['key']}:{e['what']}", "tampered package verified", e)
+        if e["event"] in ("Tampered", "NoSignature", "WrongDigest"):
+            ck.violation(f"{e['event']}:{e['key']}:{e['what']}", {"Tampered": "tampered package verified", "NoSignature": "verified without a valid signature",
+                                                                 "WrongDigest": "verified although a recorded digest is wrong"}[e["event"]], e)
         else:
-            ep = by_case.get(e.get("case"), [e])
+            ep = [{k: v for k, v in x.items() if k != "_ep"} for x in by_case.get(e.get("_ep"), [e])]
             shape = ep[0].get("shape")
-            ck.violation(f"Verify:{json.dumps(shape, sort_keys=True)}", f"{e['event']} {e.get('result', '')}", ep)
+            ck.violation(f"Verify:{json.dumps(shape, sort_keys=True)}:order{ep[0].get('perm', 0)}", f"{e['event']} {e.get('result', '')}", ep)
     lifecycle_walks(ck, binary, "C02", 1500 if thorough else 40)
     begins = [e for e in events if e["event"] == "Begin" and e["id"] in by_id]
     rets = [e for e in events if e["event"] == "Return" and e["id"] in by_id]
